@@ -668,7 +668,7 @@ def entangled(prog, feats):
     return False
 
 
-def gen_mtl(rng: random.Random, overlap=False, nested=None, bound=2 ** 20, alias=None):
+def gen_mtl(rng: random.Random, overlap=False, nested=None, bound=2 ** 20, alias=None, zero_last=False):
     """trunk (random program) -> 1..3 feature tensors -> 1..4 heads with 0..3 own parameters
     (parameters shared between tasks in ~30 %).  Returns (prog, features, losses, tasks, shared)
     with tasks = per-loss lists of own parameters (leaves), shared = leaves the features reach.
@@ -694,6 +694,19 @@ def gen_mtl(rng: random.Random, overlap=False, nested=None, bound=2 ** 20, alias
         for ti in range(nt):
             params = []
             terms = []
+            if zero_last and ti == nt - 1:
+                # an INACTIVE last task (dead unit, masked loss): loss = sum(f * q) with q = 0, so its
+                # gradient w.r.t. every feature -- the last row of the Jacobian -- is exactly zero
+                for f in feats:
+                    q = p.leaf(p.shapes[f], [0] * numel(p.shapes[f]), True)
+                    params.append(q)
+                    terms.append(p.op("sum", [p.op("mul", [f, q])]))
+                loss = terms[0]
+                for t in terms[1:]:
+                    loss = p.op("add", [loss, t])
+                losses.append(loss)
+                tasks.append(params)
+                continue
             for f in rng.sample(feats, rng.randint(1, len(feats))):
                 sf = p.shapes[f]
                 c = rng.random()
